@@ -180,6 +180,45 @@ def oracleEnd (c : Case) (word : Word) (handled : List Nat) (sup : List String) 
   (if !c.drainClosed || c.otherExit || (drained == 1 && !alive) then [] else ["drain-never-finishes"]) ++
   (if c.drainClosed || drained == 0 then [] else ["drained-without-drain"])
 
+/-! ### free-running stress cases (oracle only) -/
+
+structure SRec where
+  id : Nat
+  res : String
+  t0 : Nat
+  t1 : Nat
+
+def parseSRecs (v : String) : List SRec :=
+  if v == "-" then [] else
+  (v.splitOn ",").filterMap (fun (e : String) => match e.splitOn ":" with
+    | [i, r, a, b] => do
+      let i ← String.toNat? i; let a ← String.toNat? a; let b ← String.toNat? b
+      pure ⟨i, r, a, b⟩
+    | _ => none)
+
+/-- Oracle of a free-running case. Tickets come from one global counter, taken before a send
+starts and after it returned: `t1 a < t0 b` means send `a` had returned before send `b` started. -/
+def oracleStress (withDrain withStop : Bool) (rs : List SRec) (handled : List Nat)
+    (drain : Option (Nat × Nat)) (sup : List String) (exited : Bool) : List String :=
+  let oks := rs.filter (·.res == "ok")
+  let drained := (sup.filter (· == "Terminated:Drained")).length
+  (if nodupNat handled then [] else ["handled-twice"]) ++
+  (if handled.all (fun i => oks.any (·.id == i)) then [] else ["handled-without-ok"]) ++
+  (if rs.all (fun r => r.res == "ok" || r.res == "sendErr") then [] else ["wrong-return"]) ++
+  (if withStop || oks.all (fun r => handled.contains r.id) then [] else ["ok-not-handled"]) ++
+  (if oks.all (fun a => oks.all (fun b =>
+      !(a.t1 < b.t0) ||
+        (match indexOf? handled a.id, indexOf? handled b.id with
+         | some x, some y => x < y
+         | none, some _ => false
+         | _, _ => true))) then [] else ["order"]) ++
+  (match drain with
+   | some (_, d1) => if rs.all (fun r => !(d1 < r.t0) || r.res == "sendErr") then [] else ["admitted-after-close"]
+   | none => []) ++
+  (if drained ≤ 1 then [] else ["drained-twice"]) ++
+  (if !withDrain || withStop || (drained == 1 && exited) then [] else ["drain-never-finishes"]) ++
+  (if withDrain || drained == 0 then [] else ["drained-without-drain"])
+
 /-! ### replay -/
 
 def step1 (st : St) (op impl : String) : St × StepOut :=
@@ -295,11 +334,24 @@ def step1 (st : St) (op impl : String) : St × StepOut :=
         | _, _, _, _, _ => ["unparsable"]
       | _ => ["unparsable"]
     (st, { model := model, oracle := orc, nontrivial := st.c.raced || st.c.otherExit })
+  | "stress" :: _ :: opts =>
+    let iw := words impl
+    let flag (k : String) : Bool := (opts.findSome? (parseKV · k)) == some "1"
+    let rs := parseSRecs ((iw.findSome? (parseKV · "sends")).getD "-")
+    let handled := ((iw.findSome? (parseKV · "handled")).bind natList?).getD []
+    let drain := match ((iw.findSome? (parseKV · "drain")).getD "-").splitOn ":" with
+      | [a, b] => (do let a ← String.toNat? a; let b ← String.toNat? b; pure (a, b) : Option (Nat × Nat))
+      | _ => none
+    let sup := ((iw.findSome? (parseKV · "sup")).getD "").splitOn ","
+    let exited := (iw.findSome? (parseKV · "exited")) == some "1"
+    let orc := oracleStress (flag "drain") (flag "stop") rs handled drain sup exited
+    -- no model replay: free-running threads are judged by the oracle only
+    (st, { model := impl, oracle := orc, nontrivial := flag "drain" && rs.any (·.res != "ok") && rs.any (·.res == "ok") })
   | _ => (st, { model := "bad-op" })
 
 def step (st : St) (op impl : String) : St × StepOut :=
   let (st', out) := step1 st op impl
-  if st.diverged && !(op.startsWith "case ") then (st', { out with model := impl })
+  if st.diverged && !(op.startsWith "case ") && !(op.startsWith "stress ") then (st', { out with model := impl })
   else if out.model != impl then ({ st' with diverged := true }, out)
   else (st', out)
 
